@@ -249,7 +249,7 @@ def _touched_names(flav, bp, net):
 def _force_order(flav, bp, net, pops, oset):
     """impose the pop order `pops` (node names, or [src, dst] pairs) on the touched set: oset.pop()
     takes the last element, so the wanted order is inserted reversed; anything else the object wants
-    to recompute is kept and popped afterwards."""
+    to recompute is kept and popped afterwards; nothing is added to what the object wants."""
     if flav == "D1BP":
         tid_of = {net.name[U.pos_of_tensor(t)]: tid for tid, t in bp.tn.tensor_map.items()}
         want = [tid_of[a] for a in pops]
@@ -261,7 +261,14 @@ def _force_order(flav, bp, net, pops, oset):
             want.append((ix, tid_of[b]))
     else:
         want = [(a, b) for a, b in pops]
-    rest = [k for k in bp.touched if k not in want]
+    # only the ORDER is imposed: the set stays what the object itself decided to recompute (an empty
+    # set, or local_convergence=False, is refilled with everything by iterate())
+    cur = list(bp.touched)
+    if not cur or not bp.local_convergence:
+        cur = list(bp.tn.tensor_map) if flav == "D1BP" else (list(bp.exprs) if flav == "D2BP" else
+                                                             [p2 for e in bp.edges for p2 in (e, e[::-1])])
+    want = [k for k in want if k in cur]
+    rest = [k for k in cur if k not in want]
     bp.touched = oset(rest + list(reversed(want)))
 
 
